@@ -132,7 +132,7 @@ pub struct IterSpec {
     /// clone the iterator after this many steps and drain the clone (255 = never)
     pub clone_at: u8,
     /// how the remainder is consumed after the scripted steps: 0 count(), 1 last(), 2 nth(1),
-    /// 3 nth_back(1), 4 rev().next(), 5 fold over all
+    /// 3 nth_back(1), 4 rev().next(), 5 for loop, 6 rfold, 7 step_by(2), 8 skip(1).next()+count()
     pub fin: u8,
 }
 
